@@ -67,13 +67,17 @@ Inductive op :=
        checkChangeConflictExclusiveKinds(st, kind, ignore) (remodel, recovery systems, snapd downgrade); same: see
        check_conflict. If accepted the tasks go into the requesting change when it exists and is in progress, otherwise
        into a new change of the given kind. *)
-| Progress (c i : N) (r : bool).   (* task number i of change c gets a ready (r = true) or unready status *)
+| Progress (c i : N) (r : bool)    (* task number i of change c gets a ready (r = true) or unready status *)
+| Inject (kind : bytes) (snaps : list N).
+    (* a change with one task affecting snaps that appears WITHOUT any conflict check (used by a driver to put another
+       subsystem's change into the state; not a well-formed request: the theorems do not range over it) *)
 
 Definition rejected (st : state) (o : op) : bool :=
   match o with
   | Request kind dg run_excl ignore same snaps tasks =>
       check_many st snaps ignore || negb same || (run_excl && check_exclusive st true ignore)
   | Progress _ _ _ => false
+  | Inject _ _ => false
   end.
 
 Definition next_id (st : state) : N := fold_right (fun c m => N.max (N.succ (c_id c)) m) 1 st.
@@ -99,6 +103,7 @@ Definition step (st : state) (o : op) : state :=
   | Progress ci i r =>
       map (fun c => if (c_id c =? ci) && negb (c_ready c)
                     then mkChange (c_id c) (c_kind c) (c_dg c) (set_nth (c_tasks c) i r) else c) st
+  | Inject kind snaps => st ++ [mkChange (next_id st) kind false [mkTask snaps false]]
   end.
 
 Definition run (st : state) (ops : list op) : state := fold_left step ops st.
@@ -108,6 +113,7 @@ Definition req_wf (o : op) : bool :=
   match o with
   | Request _ _ _ _ _ snaps tasks => forallb (fun t => forallb (fun x => mem x snaps) (t_snaps t)) tasks
   | Progress _ _ _ => true
+  | Inject _ _ => false
   end.
 
 (* the changes that count: in progress and not of an exempt kind (pre-download, become-operational) *)
@@ -203,17 +209,27 @@ Definition must_conflict (st : state) (q : query) : bool :=
          existsb (fun c => negb (c_ready c) && negb (is_ignored c ignore)) st
      end.
 
-Fixpoint monitor_steps (prev_changes prev_tasks : N) (steps : list hobs) : bool :=
+Definition is_accepted_request (h : hobs) : bool :=
+  match ho_op h with Request _ _ _ _ _ _ _ => negb (ho_rejected h) | _ => false end.
+
+(* after an accepted request: no snap has gained a further in-progress non-exempt change so that it now has more than
+   one; the tasks created affect only snaps the request had checked. After a rejected request: nothing was created.
+   (Changes put into the state by the driver itself with Inject are not judged.) *)
+Fixpoint monitor_steps (prev_changes prev_tasks : N) (prev_touching : list (N * list N)) (steps : list hobs) : bool :=
   match steps with
   | [] => false
   | h :: r =>
-      let crowded := existsb (fun e => negb (N.of_nat (List.length (snd e)) <=? 1)) (ho_touching h) in
+      let crowded := is_accepted_request h &&
+            existsb (fun e => negb (N.of_nat (List.length (snd e)) <=? 1)
+                              && negb (N.of_nat (List.length (snd e)) <=? N.of_nat (List.length (lookup prev_touching (fst e)))))
+                    (ho_touching h) in
+      let unchecked := is_accepted_request h && negb (req_wf (ho_op h)) in
       let grew := ho_rejected h && negb ((ho_nchanges h =? prev_changes) && (ho_ntasks h =? prev_tasks)) in
-      if crowded || grew then true else monitor_steps (ho_nchanges h) (ho_ntasks h) r
+      if crowded || unchecked || grew then true else monitor_steps (ho_nchanges h) (ho_ntasks h) (ho_touching h) r
   end.
 
 Definition monitor_fail (c : case) : bool :=
   match c with
   | Direct st qs => existsb (fun qa => must_conflict st (fst qa) && negb (snd qa)) qs
-  | History n steps => monitor_steps 0 0 steps
+  | History n steps => monitor_steps 0 0 [] steps
   end.
